@@ -394,6 +394,32 @@ func (b *Builder) MakeScript(a Action) ([]byte, []int, error) {
 		}
 		cb := OracleCallbacks[((a.B%len(OracleCallbacks))+len(OracleCallbacks))%len(OracleCallbacks)]
 		call(d.Hash, "call", nativehashes.OracleContract, "request", int64(callflag.All), []any{"https://x.example/" + a.S, nil, cb, []byte(a.V), gfr})
+	case "ledger_q":
+		// A question about a recent block, answered from the ledger records of the node (not from contract storage):
+		// N 0: Ledger.getTransactionFromBlock(currentIndex-A, B), N 1: Ledger.getBlock(currentIndex-A); then
+		// 1 GAS unit (an answer) or 2 (Null) are moved, so that a different answer or a fault shows in the state.
+		call(nativehashes.LedgerContract, "currentIndex")
+		emit.Int(w.BinWriter, int64(a.A))
+		emit.Opcodes(w.BinWriter, opcode.SUB)
+		method := "getBlock"
+		if a.N == 0 {
+			method = "getTransactionFromBlock"
+			emit.Int(w.BinWriter, int64(a.B))
+			emit.Opcodes(w.BinWriter, opcode.SWAP)
+			emit.Int(w.BinWriter, 2)
+		} else {
+			emit.Int(w.BinWriter, 1)
+		}
+		emit.Opcodes(w.BinWriter, opcode.PACK)
+		emit.AppCallNoArgs(w.BinWriter, nativehashes.LedgerContract, method, callflag.ReadStates)
+		// amount = 1 (an answer) or 2 (Null): GAS.transfer(from, to, amount, nil)
+		emit.Opcodes(w.BinWriter, opcode.ISNULL, opcode.PUSH1, opcode.ADD, opcode.PUSHNULL, opcode.SWAP)
+		emit.Bytes(w.BinWriter, b.PartyHash((a.From+1)%NAccounts).BytesBE())
+		emit.Bytes(w.BinWriter, from.BytesBE())
+		emit.Int(w.BinWriter, 4)
+		emit.Opcodes(w.BinWriter, opcode.PACK)
+		emit.AppCallNoArgs(w.BinWriter, nativehashes.GasToken, "transfer", callflag.All)
+		emit.Opcodes(w.BinWriter, opcode.ASSERT)
 	case "raw": // V = raw script
 		w.WriteBytes(a.V)
 	case "throw":
@@ -520,6 +546,10 @@ func (b *Builder) MakeTx(a Action) (*transaction.Transaction, error) {
 	// System fee from a test invocation on the current state.
 	gas, _ := b.TestInvoke(tx)
 	tx.SystemFee = gas + a.GasAdj
+	if a.Kind == "ledger_q" {
+		// the price is measured on the builder; a node that answers differently must be able to go on to the transfer
+		tx.SystemFee += 5000_0000
+	}
 	if tx.SystemFee < 0 {
 		tx.SystemFee = 0
 	}
